@@ -40,6 +40,10 @@ pub const EOPERANDS: [EOperand; 3] = [EOperand::Parsed, EOperand::FromVec, EOper
 #[derive(Clone, Copy, Serialize, Deserialize, PartialEq, Debug)]
 pub enum RelEdit {
     SetVersion,
+    SetVersionGe,
+    SetVersionLe,
+    SetVersionGt,
+    SetVersionLt,
     ClearVersion,
     DropConstraint,
     SetArchqual,
@@ -47,8 +51,8 @@ pub enum RelEdit {
     SetArchs2,
     AddProfile,
 }
-pub const REL_EDITS: [RelEdit; 7] =
-    [RelEdit::SetVersion, RelEdit::ClearVersion, RelEdit::DropConstraint, RelEdit::SetArchqual, RelEdit::SetArchs1, RelEdit::SetArchs2, RelEdit::AddProfile];
+pub const REL_EDITS: [RelEdit; 11] =
+    [RelEdit::SetVersion, RelEdit::SetVersionGe, RelEdit::SetVersionLe, RelEdit::SetVersionGt, RelEdit::SetVersionLt, RelEdit::ClearVersion, RelEdit::DropConstraint, RelEdit::SetArchqual, RelEdit::SetArchs1, RelEdit::SetArchs2, RelEdit::AddProfile];
 /// first edits of a two-edit sequence through one handle: the ones that may re-root the handle
 pub const REROOTING: [RelEdit; 4] = [RelEdit::SetVersion, RelEdit::SetArchs1, RelEdit::AddProfile, RelEdit::SetArchqual];
 
@@ -65,6 +69,79 @@ pub enum ROp {
     Rel(usize, usize, RelEdit),
     /// two consecutive edits through the same relation handle
     RelPair(usize, usize, RelEdit, RelEdit),
+    /// relations.get_entry(e).remove()
+    EntrySelfRemove(usize),
+    /// two consecutive alternative-level operations through ONE entry handle
+    EntryPair(usize, EOp, EOp),
+}
+
+/// an alternative-level operation through an entry handle
+#[derive(Clone, Copy, Serialize, Deserialize, PartialEq, Debug)]
+pub enum EOp {
+    Push(ROperand),
+    Replace(usize, ROperand),
+    Remove(usize),
+}
+/// operands used inside EntryPair (kept small: the pair space is quadratic)
+const PAIR_OPERANDS: [ROperand; 2] = [ROperand::Simple, ROperand::Parsed];
+
+fn eops_for(m: usize) -> Vec<EOp> {
+    let mut v = vec![];
+    if m < MAX_ALTS {
+        for o in PAIR_OPERANDS {
+            v.push(EOp::Push(o));
+        }
+    }
+    for j in 0..m {
+        for o in PAIR_OPERANDS {
+            v.push(EOp::Replace(j, o));
+        }
+        v.push(EOp::Remove(j));
+    }
+    v
+}
+fn eop_len_after(m: usize, op: &EOp) -> usize {
+    match op {
+        EOp::Push(_) => m + 1,
+        EOp::Replace(..) => m,
+        EOp::Remove(_) => m - 1,
+    }
+}
+fn eop_live(en: &mut ll::Entry, op: &EOp) -> Result<(), String> {
+    match op {
+        EOp::Push(o) => en.push(mk_rel(*o).0),
+        EOp::Replace(j, o) => {
+            en.get_relation(*j).ok_or("no such relation")?;
+            en.replace(*j, mk_rel(*o).0)
+        }
+        EOp::Remove(j) => {
+            en.get_relation(*j).ok_or("no such relation")?;
+            en.remove_relation(*j);
+        }
+    }
+    Ok(())
+}
+fn eop_model(en: &mut Vec<MRel>, op: &EOp) -> Result<(), String> {
+    match op {
+        EOp::Push(o) => en.push(mk_rel(*o).1),
+        EOp::Replace(j, o) => *en.get_mut(*j).ok_or("model index out of range")? = mk_rel(*o).1,
+        EOp::Remove(j) => {
+            if *j >= en.len() {
+                return Err("model index out of range".into());
+            }
+            en.remove(*j);
+        }
+    }
+    Ok(())
+}
+
+/// what an operation handed back to the caller
+#[derive(Debug, PartialEq)]
+pub enum Ret {
+    Nothing,
+    Bool(bool),
+    Entry(Vec<MRel>),
+    Rel(MRel),
 }
 
 #[derive(Clone, Serialize, Deserialize, PartialEq, Debug)]
@@ -129,6 +206,10 @@ fn mk_entry(o: EOperand) -> (ll::Entry, Vec<MRel>) {
 fn apply_edit_live(r: &mut ll::Relation, e: RelEdit) {
     match e {
         RelEdit::SetVersion => r.set_version(Some((VersionConstraint::Equal, "3".parse().unwrap()))),
+        RelEdit::SetVersionGe => r.set_version(Some((VersionConstraint::GreaterThanEqual, "1:3~a".parse().unwrap()))),
+        RelEdit::SetVersionLe => r.set_version(Some((VersionConstraint::LessThanEqual, "3-1".parse().unwrap()))),
+        RelEdit::SetVersionGt => r.set_version(Some((VersionConstraint::GreaterThan, "3".parse().unwrap()))),
+        RelEdit::SetVersionLt => r.set_version(Some((VersionConstraint::LessThan, "3".parse().unwrap()))),
         RelEdit::ClearVersion => r.set_version(None),
         RelEdit::DropConstraint => {
             r.drop_constraint();
@@ -142,6 +223,10 @@ fn apply_edit_live(r: &mut ll::Relation, e: RelEdit) {
 fn apply_edit_model(m: &mut MRel, e: RelEdit) {
     match e {
         RelEdit::SetVersion => m.version = Some(("=".into(), "3".into())),
+        RelEdit::SetVersionGe => m.version = Some((">=".into(), "1:3~a".into())),
+        RelEdit::SetVersionLe => m.version = Some(("<=".into(), "3-1".into())),
+        RelEdit::SetVersionGt => m.version = Some((">>".into(), "3".into())),
+        RelEdit::SetVersionLt => m.version = Some(("<<".into(), "3".into())),
         RelEdit::ClearVersion | RelEdit::DropConstraint => m.version = None,
         RelEdit::SetArchqual => m.archqual = Some("native".into()),
         RelEdit::SetArchs1 => m.archs = Some(vec!["arm64".into()]),
@@ -165,6 +250,93 @@ pub const INITS: [(&str, bool); 13] = [
     ("${s:V}, a", true),
     ("a, ${s:V}", true),
 ];
+
+/// values assembled by the constructors instead of the parser
+pub const CTOR_INITS: [&str; 5] = ["@new", "@default", "@from-vec", "@from-entry", "@from-empty-vec"];
+
+/// Layout templates: '^' = whitespace at the field's start/end (SEP_WS), ',' = comma with whitespace before (SEP_WS) and
+/// after (SEP_WS1), '|' = pipe with whitespace before and after (SEP_WS1), '_' = whitespace between the parts of a relation
+/// (PART_WS), '~' = whitespace between list items (ITEM_WS); everything else is literal.  All names are distinct so that an
+/// operation on the wrong neighbour is visible in the model.
+pub const TEMPLATES: [(&str, bool); 8] = [
+    ("^a_(>= 1)|b:any_[amd64~!i386],c_<x~!y> <z>|d^", false),
+    ("^a,b|c|d^", false),
+    ("^a,b,c^", false),
+    ("^a|b,,c^", false),
+    ("^,a|b^", false),
+    ("^a|b,c,^", false),
+    ("^${s:V},a|b,c^", true),
+    ("^a|b,${s:V},c|d^", true),
+];
+
+enum Pc {
+    Lit(String),
+    Slot(&'static [&'static str]),
+}
+fn template_pieces(t: &str) -> Vec<Pc> {
+    let mut out: Vec<Pc> = vec![];
+    let lit = |out: &mut Vec<Pc>, c: char| {
+        if let Some(Pc::Lit(s)) = out.last_mut() {
+            s.push(c);
+        } else {
+            out.push(Pc::Lit(c.to_string()));
+        }
+    };
+    for c in t.chars() {
+        match c {
+            '^' => out.push(Pc::Slot(&SEP_WS)),
+            ',' => {
+                out.push(Pc::Slot(&SEP_WS));
+                out.push(Pc::Lit(",".into()));
+                out.push(Pc::Slot(&SEP_WS1));
+            }
+            '|' => {
+                out.push(Pc::Slot(&SEP_WS1));
+                out.push(Pc::Lit("|".into()));
+                out.push(Pc::Slot(&SEP_WS1));
+            }
+            '_' => out.push(Pc::Slot(&PART_WS)),
+            '~' => out.push(Pc::Slot(&ITEM_WS)),
+            c => lit(&mut out, c),
+        }
+    }
+    out
+}
+fn template_menus(t: &str) -> Vec<usize> {
+    template_pieces(t).iter().filter_map(|p| if let Pc::Slot(m) = p { Some(m.len()) } else { None }).collect()
+}
+fn template_render(t: &str, v: &[usize]) -> String {
+    let mut s = String::new();
+    let mut i = 0;
+    for p in template_pieces(t) {
+        match p {
+            Pc::Lit(l) => s.push_str(&l),
+            Pc::Slot(m) => {
+                s.push_str(m[v[i]]);
+                i += 1;
+            }
+        }
+    }
+    s
+}
+/// (template, first deviating slot) pairs: one shard each
+fn layout_shards() -> Vec<(usize, Option<usize>)> {
+    let mut v = vec![];
+    for (ti, (t, _)) in TEMPLATES.iter().enumerate() {
+        v.push((ti, None));
+        for i in 0..template_menus(t).len() {
+            v.push((ti, Some(i)));
+        }
+    }
+    v
+}
+/// layouts explored per tier: (deviations, depth) pairs
+fn layout_plan(t: Tier) -> Vec<(usize, usize)> {
+    match t {
+        Tier::Quick => vec![(1, 1)],
+        Tier::Thorough => vec![(2, 1), (1, 2)],
+    }
+}
 
 const MAX_ENTRIES: usize = 3;
 const MAX_ALTS: usize = 3;
@@ -192,9 +364,19 @@ fn ops_for(model: &[Vec<MRel>], t: Tier) -> Vec<ROp> {
             ops.push(ROp::Replace(i, *o));
         }
         ops.push(ROp::RemoveEntry(i));
+        ops.push(ROp::EntrySelfRemove(i));
     }
     for e in 0..n {
         let m = model[e].len();
+        for a in eops_for(m) {
+            let m2 = eop_len_after(m, &a);
+            if m2 == 0 {
+                continue; // an emptied entry may be dropped by the implementation: no second step through the handle
+            }
+            for b in eops_for(m2) {
+                ops.push(ROp::EntryPair(e, a, b));
+            }
+        }
         if m < MAX_ALTS {
             for o in rops {
                 ops.push(ROp::EPush(e, *o));
@@ -220,7 +402,7 @@ fn ops_for(model: &[Vec<MRel>], t: Tier) -> Vec<ROp> {
 }
 
 /// Apply to the live root; returns Err when the op is not applicable (index out of range in the live object).
-fn live_apply(root: &mut ll::Relations, op: &ROp) -> Result<(), String> {
+fn live_apply(root: &mut ll::Relations, op: &ROp) -> Result<Ret, String> {
     let get_e = |root: &ll::Relations, e: usize| root.get_entry(e).ok_or_else(|| format!("live field has no entry {}", e));
     match op {
         ROp::Push(o) => root.push(mk_entry(*o).0),
@@ -231,7 +413,17 @@ fn live_apply(root: &mut ll::Relations, op: &ROp) -> Result<(), String> {
         }
         ROp::RemoveEntry(i) => {
             get_e(root, *i)?;
-            root.remove_entry(*i);
+            let gone = root.remove_entry(*i);
+            return Ok(Ret::Entry(gone.relations().map(|r| read_ll_rel(&r)).collect()));
+        }
+        ROp::EntrySelfRemove(i) => {
+            let mut en = get_e(root, *i)?;
+            en.remove();
+        }
+        ROp::EntryPair(e, a, b) => {
+            let mut en = get_e(root, *e)?;
+            eop_live(&mut en, a)?;
+            eop_live(&mut en, b)?;
         }
         ROp::EPush(e, o) => get_e(root, *e)?.push(mk_rel(*o).0),
         ROp::EReplace(e, j, o) => {
@@ -242,7 +434,8 @@ fn live_apply(root: &mut ll::Relations, op: &ROp) -> Result<(), String> {
         ROp::ERemove(e, j) => {
             let en = get_e(root, *e)?;
             en.get_relation(*j).ok_or("no such relation")?;
-            en.remove_relation(*j);
+            let gone = en.remove_relation(*j);
+            return Ok(Ret::Rel(read_ll_rel(&gone)));
         }
         ROp::RelRemove(e, j) => {
             let mut r = get_e(root, *e)?.get_relation(*j).ok_or("no such relation")?;
@@ -250,6 +443,9 @@ fn live_apply(root: &mut ll::Relations, op: &ROp) -> Result<(), String> {
         }
         ROp::Rel(e, j, ed) => {
             let mut r = get_e(root, *e)?.get_relation(*j).ok_or("no such relation")?;
+            if *ed == RelEdit::DropConstraint {
+                return Ok(Ret::Bool(r.drop_constraint()));
+            }
             apply_edit_live(&mut r, *ed);
         }
         ROp::RelPair(e, j, a, b) => {
@@ -258,7 +454,7 @@ fn live_apply(root: &mut ll::Relations, op: &ROp) -> Result<(), String> {
             apply_edit_live(&mut r, *b);
         }
     }
-    Ok(())
+    Ok(Ret::Nothing)
 }
 
 fn model_apply(m: &mut Vec<Vec<MRel>>, op: &ROp) -> Result<(), String> {
@@ -267,11 +463,16 @@ fn model_apply(m: &mut Vec<Vec<MRel>>, op: &ROp) -> Result<(), String> {
         ROp::Push(o) => m.push(mk_entry(*o).1),
         ROp::Insert(i, o) => m.insert((*i).min(m.len()), mk_entry(*o).1),
         ROp::Replace(i, o) => *m.get_mut(*i).ok_or_else(oob)? = mk_entry(*o).1,
-        ROp::RemoveEntry(i) => {
+        ROp::RemoveEntry(i) | ROp::EntrySelfRemove(i) => {
             if *i >= m.len() {
                 return Err(oob());
             }
             m.remove(*i);
+        }
+        ROp::EntryPair(e, a, b) => {
+            let en = m.get_mut(*e).ok_or_else(oob)?;
+            eop_model(en, a)?;
+            eop_model(en, b)?;
         }
         ROp::EPush(e, o) => m.get_mut(*e).ok_or_else(oob)?.push(mk_rel(*o).1),
         ROp::EReplace(e, j, o) => *m.get_mut(*e).ok_or_else(oob)?.get_mut(*j).ok_or_else(oob)? = mk_rel(*o).1,
@@ -306,28 +507,53 @@ fn dump(root: &ll::Relations) -> String {
     s
 }
 
+/// Initial field: a text read by parse_relaxed, or ("@...") a value assembled by the constructors.
+fn build_init(init: &str, subst: bool) -> Result<ll::Relations, String> {
+    let e_ab = || ll::Entry::from(vec![ll::Relation::simple("a"), ll::Relation::from_str("b (>= 1)").unwrap()]);
+    Ok(match init {
+        "@new" => ll::Relations::new(),
+        "@default" => ll::Relations::default(),
+        "@from-vec" => ll::Relations::from(vec![e_ab(), ll::Entry::from(ll::Relation::simple("c"))]),
+        "@from-entry" => ll::Relations::from(e_ab()),
+        "@from-empty-vec" => ll::Relations::from(Vec::<ll::Entry>::new()),
+        _ => {
+            let (root, errs) = ll::Relations::parse_relaxed(init, subst);
+            if !errs.is_empty() {
+                return Err("initial field does not parse".into());
+            }
+            root
+        }
+    })
+}
+
+/// No duplicated, dangling or leading/trailing separator (whitespace ignored).
+fn separators_sane(text: &str) -> bool {
+    let t: String = text.chars().filter(|c| !c.is_whitespace()).collect();
+    !(t.starts_with(',') || t.ends_with(',') || t.starts_with('|') || t.ends_with('|') || t.contains(",,") || t.contains("||") || t.contains(",|") || t.contains("|,"))
+}
+
 /// Replay the history; check the invariants for the last step.
 fn run(c: &C11Case) -> Result<(Vec<Viol>, String), String> {
-    let (mut root, errs) = ll::Relations::parse_relaxed(&c.init, c.subst);
-    if !errs.is_empty() {
-        return Err("initial field does not parse".into());
-    }
+    let mut root = build_init(&c.init, c.subst)?;
     let mut model: Vec<Vec<MRel>> = read_ll(&root).entries;
     let substvars = read_ll(&root).substvars;
     let n = c.ops.len();
     let mut out = vec![];
     let mut before_entries: Vec<String> = vec![];
     let mut model_before = model.clone();
+    let mut text_before = String::new();
+    let mut last_ret = Ret::Nothing;
     for (i, op) in c.ops.iter().enumerate() {
         // keep the model's treatment of an emptied entry in step with the live object (either outcome is allowed)
         if i + 1 == n {
             before_entries = root.entries().map(|e| e.to_string()).collect();
             model_before = model.clone();
+            text_before = root.to_string();
         }
-        live_apply(&mut root, op)?;
+        last_ret = live_apply(&mut root, op)?;
         model_apply(&mut model, op)?;
         let live_n = root.entries().count();
-        if matches!(op, ROp::ERemove(..) | ROp::RelRemove(..)) && live_n + 1 == model.len() {
+        if matches!(op, ROp::ERemove(..) | ROp::RelRemove(..) | ROp::EntryPair(..)) && live_n + 1 == model.len() {
             if let Some(pos) = model.iter().position(|e| e.is_empty()) {
                 model.remove(pos);
             }
@@ -354,6 +580,33 @@ fn run(c: &C11Case) -> Result<(Vec<Viol>, String), String> {
     if nonempty(&live.entries) != nonempty(&model) {
         out.push(viol("live-equals-model", ctx(&format!("live {:?} model {:?}", live.entries, model))));
     }
+    if root.len() != live.entries.len() || root.is_empty() != live.entries.is_empty() {
+        out.push(viol("len-is-empty", ctx(&format!("len() {} is_empty() {} but entries() yields {}", root.len(), root.is_empty(), live.entries.len()))));
+    }
+    for (e, en) in root.entries().enumerate() {
+        let k = en.relations().count();
+        if en.len() != k || en.is_empty() != (k == 0) {
+            out.push(viol("len-is-empty", ctx(&format!("entry {}: len() {} is_empty() {} but relations() yields {}", e, en.len(), en.is_empty(), k))));
+        }
+    }
+    // (2b) what the operation handed back
+    if n > 0 {
+        let want = match &c.ops[n - 1] {
+            ROp::RemoveEntry(i) => model_before.get(*i).map(|e| Ret::Entry(e.clone())),
+            ROp::ERemove(e, j) => model_before.get(*e).and_then(|en| en.get(*j)).map(|r| Ret::Rel(r.clone())),
+            ROp::Rel(e, j, RelEdit::DropConstraint) => model_before.get(*e).and_then(|en| en.get(*j)).map(|r| Ret::Bool(r.version.is_some())),
+            _ => None,
+        };
+        if let Some(w) = want {
+            if w != last_ret {
+                out.push(viol("returned-value", ctx(&format!("the operation returned {:?}, the model says {:?}", last_ret, w))));
+            }
+        }
+    }
+    // (2c) separators are never duplicated or left dangling: a field without empty entries stays without
+    if n > 0 && separators_sane(&text_before) && model_before.iter().all(|e| !e.is_empty()) && model.iter().all(|e| !e.is_empty()) && !separators_sane(&text) {
+        out.push(viol("separators", ctx(&format!("the field was {:?} before the last operation; now a separator is duplicated or dangling", text_before))));
+    }
     // (3) untouched entries keep their text
     if n > 0 {
         let after_entries: Vec<String> = root.entries().map(|e| e.to_string()).collect();
@@ -364,8 +617,12 @@ fn run(c: &C11Case) -> Result<(Vec<Viol>, String), String> {
             ROp::Push(_) => (0..nb).map(|i| (i, i)).collect(),
             ROp::Insert(at, _) => (0..nb).map(|i| (i, if i >= (*at).min(nb) { i + 1 } else { i })).collect(),
             ROp::Replace(at, _) => (0..nb).filter(|i| i != at).map(|i| (i, i)).collect(),
-            ROp::RemoveEntry(at) => (0..nb).filter(|i| i != at).map(|i| (i, if i > *at { i - 1 } else { i })).collect(),
-            ROp::EPush(e, _) | ROp::EReplace(e, ..) | ROp::Rel(e, ..) | ROp::RelPair(e, ..) => (0..nb).filter(|i| i != e).map(|i| (i, i)).collect(),
+            ROp::RemoveEntry(at) | ROp::EntrySelfRemove(at) => (0..nb).filter(|i| i != at).map(|i| (i, if i > *at { i - 1 } else { i })).collect(),
+            ROp::EntryPair(e, a, b) if matches!(a, EOp::Remove(_)) || matches!(b, EOp::Remove(_)) => {
+                let dropped = after_entries.len() + 1 == nb;
+                (0..nb).filter(|i| i != e).map(|i| (i, if dropped && i > *e { i - 1 } else { i })).collect()
+            }
+            ROp::EPush(e, _) | ROp::EReplace(e, ..) | ROp::Rel(e, ..) | ROp::RelPair(e, ..) | ROp::EntryPair(e, ..) => (0..nb).filter(|i| i != e).map(|i| (i, i)).collect(),
             ROp::ERemove(e, _) | ROp::RelRemove(e, _) => {
                 let dropped = after_entries.len() + 1 == nb;
                 (0..nb).filter(|i| i != e).map(|i| (i, if dropped && i > *e { i - 1 } else { i })).collect()
@@ -390,37 +647,9 @@ fn depths(t: Tier) -> (usize, usize) {
     t.pick((2, 1), (3, 2))
 }
 
-impl Prop for C11 {
-    type Case = C11Case;
-    fn id(&self) -> &'static str {
-        "C11"
-    }
-    fn level(&self) -> &'static str {
-        "model_checking"
-    }
-    fn rule(&self, _t: Tier) -> String {
-        "breadth-first search over histories of Relations::{push,insert,replace,remove_entry}, Entry::{push,replace,remove_relation}, Relation::remove and Relation::{set_version,drop_constraint,set_archqual,set_architectures,add_profile} (single edits through fresh handles and pairs of edits through one kept handle), with every valid index and operands built by parsing, constructors, the builder and From<lossy>; each state is re-reached by replay on a live object; after every transition the printed field must parse strictly to the list-of-lists model, the live object must report the model, untouched entries and substvars keep their text; state key = complete tree walk + handle flags + model; no-cache cross-check pass to a smaller depth; non-trivial = distinct cached state at depth >= 1".into()
-    }
-    fn bounds(&self, t: Tier) -> Value {
-        let (dc, dn) = depths(t);
-        json!({"initial_fields": INITS.iter().map(|x| x.0).collect::<Vec<_>>(), "depth_cached": dc, "depth_nocache": dn, "max_entries": MAX_ENTRIES, "max_alternatives": MAX_ALTS,
-               "ops_at_a_2x2_field": ops_for(&vec![vec![mrel("a"), mrel("b")], vec![mrel("c"), mrel("d")]], t).len()})
-    }
-    fn assumptions(&self) -> Vec<String> {
-        vec![
-            "out-of-range indices are not explored (they are unwrap()s mirroring Vec panics)".into(),
-            "removing an entry's only alternative may either drop the entry or leave an empty one; the model follows the live object's choice and comparisons drop empty entries".into(),
-            "handles kept across a root-level structural edit are not explored (no property statement covers them)".into(),
-        ]
-    }
-    fn n_shards(&self, _t: Tier) -> usize {
-        INITS.len() * 2
-    }
-    fn explore(&self, t: Tier, shard: usize, f: &mut dyn FnMut(&C11Case) -> Verdict) {
-        let (init, subst) = INITS[shard / 2];
-        let nocache = shard % 2 == 1;
-        let (dc, dn) = depths(t);
-        let depth = if nocache { dn } else { dc };
+impl C11 {
+    /// breadth-first search over edit histories from one initial field
+    fn bfs(&self, t: Tier, init: &str, subst: bool, nocache: bool, depth: usize, f: &mut dyn FnMut(&C11Case) -> Verdict) {
         let mut seen: HashSet<String> = HashSet::new();
         let root = C11Case { init: init.to_string(), subst, ops: vec![], nocache };
         if let Some(k) = f(&root).key {
@@ -428,8 +657,7 @@ impl Prop for C11 {
         }
         let model_of = |ops: &[ROp]| -> Vec<Vec<MRel>> {
             // the model after a history (mirrors run(), without the live object's tie-break: conservative menu)
-            let (r, _) = ll::Relations::parse_relaxed(init, subst);
-            let mut m = read_ll(&r).entries;
+            let mut m = build_init(init, subst).map(|r| read_ll(&r).entries).unwrap_or_default();
             for op in ops {
                 let _ = model_apply(&mut m, op);
                 m.retain(|e| !e.is_empty());
@@ -459,6 +687,54 @@ impl Prop for C11 {
                 }
             }
             frontier = next;
+        }
+    }
+}
+
+impl Prop for C11 {
+    type Case = C11Case;
+    fn id(&self) -> &'static str {
+        "C11"
+    }
+    fn level(&self) -> &'static str {
+        "model_checking"
+    }
+    fn rule(&self, _t: Tier) -> String {
+        "breadth-first search over histories of Relations::{push,insert,replace,remove_entry}, Entry::{push,replace,remove_relation}, Relation::remove and Relation::{set_version,drop_constraint,set_archqual,set_architectures,add_profile} (single edits through fresh handles and pairs of edits through one kept handle), with every valid index and operands built by parsing, constructors, the builder and From<lossy>; each state is re-reached by replay on a live object; after every transition the printed field must parse strictly to the list-of-lists model, the live object must report the model, untouched entries and substvars keep their text; state key = complete tree walk + handle flags + model; no-cache cross-check pass to a smaller depth; non-trivial = distinct cached state at depth >= 1".into()
+    }
+    fn bounds(&self, t: Tier) -> Value {
+        let (dc, dn) = depths(t);
+        json!({"initial_fields": INITS.iter().map(|x| x.0).collect::<Vec<_>>(), "depth_cached": dc, "depth_nocache": dn, "max_entries": MAX_ENTRIES, "max_alternatives": MAX_ALTS,
+               "ops_at_a_2x2_field": ops_for(&vec![vec![mrel("a"), mrel("b")], vec![mrel("c"), mrel("d")]], t).len()})
+    }
+    fn assumptions(&self) -> Vec<String> {
+        vec![
+            "out-of-range indices are not explored (they are unwrap()s mirroring Vec panics)".into(),
+            "removing an entry's only alternative may either drop the entry or leave an empty one; the model follows the live object's choice and comparisons drop empty entries".into(),
+            "handles kept across a root-level structural edit are not explored (no property statement covers them)".into(),
+        ]
+    }
+    fn n_shards(&self, _t: Tier) -> usize {
+        (INITS.len() + CTOR_INITS.len()) * 2 + layout_shards().len()
+    }
+    fn explore(&self, t: Tier, shard: usize, f: &mut dyn FnMut(&C11Case) -> Verdict) {
+        let fixed = (INITS.len() + CTOR_INITS.len()) * 2;
+        if shard < fixed {
+            let i = shard / 2;
+            let (init, subst) = if i < INITS.len() { INITS[i] } else { (CTOR_INITS[i - INITS.len()], false) };
+            let nocache = shard % 2 == 1;
+            let (dc, dn) = depths(t);
+            self.bfs(t, init, subst, nocache, if nocache { dn } else { dc }, f);
+        } else {
+            let (ti, first) = layout_shards()[shard - fixed];
+            let (tpl, subst) = TEMPLATES[ti];
+            let menus = template_menus(tpl);
+            for (k, depth) in layout_plan(t) {
+                crate::kdev::kdev_shard(&menus, k, first, &mut |v| {
+                    let init = template_render(tpl, v);
+                    self.bfs(t, &init, subst, false, depth, f);
+                });
+            }
         }
     }
     fn check(&self, c: &C11Case, st: &mut Stats) -> Vec<Viol> {
@@ -500,6 +776,14 @@ impl Prop for C11 {
                 ROp::EPush(e, o) if *o != ROperand::Simple => vec![ROp::EPush(*e, ROperand::Simple)],
                 ROp::EReplace(e, j, o) if *o != ROperand::Simple => vec![ROp::EReplace(*e, *j, ROperand::Simple)],
                 ROp::RelPair(e, j, a, b) => vec![ROp::Rel(*e, *j, *a), ROp::Rel(*e, *j, *b)],
+                ROp::EntryPair(e, a, b) => [a, b]
+                    .iter()
+                    .map(|x| match x {
+                        EOp::Push(o) => ROp::EPush(*e, *o),
+                        EOp::Replace(j, o) => ROp::EReplace(*e, *j, *o),
+                        EOp::Remove(j) => ROp::ERemove(*e, *j),
+                    })
+                    .collect(),
                 _ => vec![],
             };
             for s in simpler {
